@@ -107,12 +107,22 @@ def lit(n):
 def run_case(case, ctx):
     from smartquery.exceptions import ParserError  # noqa
     P = ctx.P
+    if hash(str(case)) % 9 == 0:
+        from lib import gram
+        gram.earlier_call(P, gram.Cyc(hash(str(case)) & 0xffff))
+        gram.earlier_call(ctx.PC, gram.Cyc(hash(str(case)) & 0xfff))
+        ctx.count('cases_preceded_by_an_arbitrary_earlier_call')
     random.seed(hash(str(case)) & 0xffffffff)
     kind = case[0]
     ok = True
     if kind == 'rand0':
         for _ in range(ctx.draws):
-            v = P.eval('rand()')
+            try:
+                v = P.eval('rand()')
+            except Exception as e:
+                ctx.violation('rand() raised', case, detail={'error': '%s: %s' % (type(e).__name__, str(e)[:100])})
+                ok = False
+                break
             ctx.count('draws_rand0')
             if isinstance(v, bool) or not isinstance(v, (int, float, Decimal)) or not (0 <= v < 1):
                 ctx.violation('rand() outside [0, 1) or not a number', case, detail={'value': repr(v)})
@@ -158,7 +168,12 @@ def run_case(case, ctx):
         for n in ns:
             if not ok:
                 break
-            v = PC.eval('rand(-n, n)', {'n': n})       # same text, cached tree, other n
+            try:
+                v = PC.eval('rand(-n, n)', {'n': n})       # same text, cached tree, other n
+            except Exception as e:
+                ctx.violation('rand(-n, n) raised on a caching parser', case, detail={'n': repr(n), 'error': '%s: %s' % (type(e).__name__, str(e)[:100])})
+                ok = False
+                break
             ctx.count('draws_varying_bounds')
             if not (-n <= v <= n) or v != int(v):
                 ctx.violation('rand(-n, n) outside [-n, n] on a caching parser after earlier calls with another n', case, detail={'n': repr(n), 'value': repr(v)})
@@ -210,15 +225,21 @@ def run_case(case, ctx):
             names = {'h': l}
             pre = 'l = h\n'  # a program-owned copy
         for _ in range(max(10, ctx.draws // 10)):
+            try:
+                probe = P.eval(pre + ('[rand(l), l]' if kind == 'choice' else '[shuffle(l), l]'), names)
+            except Exception as e:
+                ctx.violation('%s raised for a non-empty list' % ('rand(list)' if kind == 'choice' else 'shuffle(list)'), case, detail={'error': '%s: %s' % (type(e).__name__, str(e)[:100])})
+                ok = False
+                break
             if kind == 'choice':
-                v, cur = P.eval(pre + '[rand(l), l]', names)
+                v, cur = probe
                 ctx.count('draws_rand_list')
                 if not any(v is x for x in cur):
                     ctx.violation('rand(list) returned something that is not an element', case, detail={'value': repr(v)[:200]})
                     ok = False
                     break
             else:
-                s, cur = P.eval(pre + '[shuffle(l), l]', names)
+                s, cur = probe
                 ctx.count('draws_shuffle')
                 if s is cur or not isinstance(s, list):
                     ctx.violation('shuffle returned its argument / not a list', case, detail={'value': repr(s)[:200]})
